@@ -189,4 +189,35 @@ theorem skipExtension_sep {d : Array Nat} {p : Nat} {len : Int} {p' : Nat} {len'
     simp only [Res.ok.injEq, Option.some.injEq, Prod.mk.injEq] at h
     omega
 
+/-- A short ID (1..31) carries at most one payload byte and no length bytes. -/
+theorem skipPayload_short {d : Array Nat} {p : Nat} {len : Int} {b : Nat} {tsl : Int} {p' : Nat} {len' : Int} {hs : Nat}
+    (h : skipPayload d p len b tsl = .ok (some (p', len', hs))) (h1 : 0 < b / 2) (h2 : b / 2 < 32) :
+    hs = 0 ∧ p' ≤ p + 1 := by
+  unfold skipPayload at h
+  simp only at h
+  by_cases c1 : (b / 2 = 0 ∧ b % 2 = 1) ∨ b / 2 = 2
+  · rw [if_pos c1] at h
+    simp only [Res.ok.injEq, Option.some.injEq, Prod.mk.injEq] at h
+    omega
+  · rw [if_neg c1, if_pos ⟨h1, h2⟩] at h
+    split at h
+    · simp at h
+    · simp only [Res.ok.injEq, Option.some.injEq, Prod.mk.injEq] at h
+      omega
+
+theorem skipExtension_short {d : Array Nat} {p : Nat} {len : Int} {b : Nat} {p' : Nat} {len' : Int} {hs : Nat}
+    (h : skipExtension d p len = .ok (some (p', len', hs))) (hl : 0 < len) (hb : d[p]? = some b)
+    (h1 : 0 < b / 2) (h2 : b / 2 < 32) : hs = 1 ∧ p' ≤ p + 2 := by
+  unfold skipExtension at h
+  have a1 : ¬ len = 0 := by omega
+  have a2 : ¬ len < 1 := by omega
+  simp only [a1, a2, if_false, hb] at h
+  split at h
+  · simp at h
+  · rename_i q1 q2 q3 heq
+    have := skipPayload_short heq h1 h2
+    simp only [Res.ok.injEq, Option.some.injEq, Prod.mk.injEq] at h
+    omega
+  all_goals simp at h
+
 end Opus.ExtProofs
